@@ -43,6 +43,14 @@ CLAIMED = {
   "the reader's two seams are simulator-owned: the clock behind Buffer.timestamp (ticking, frozen so that all timestamps tie, stepping backwards so that the newest buffer looks oldest - the seed thereby chooses the eviction order) and the underlying file (BytesIO or a real file on the simulated disk); seeded sequences of read(n), read(-1), seek (three whences, negative and beyond-end), tell and peek are compared operation by operation with io.BytesIO over the same (offset, size) window for buffer sizes 1..16384 including non-divisors and cache limits >= 2",
   "explicit window sizes only (as the statement quantifies); peek may return more than requested, only its first min(n, remaining) bytes and the unchanged position are judged",
   TECH + "operation-by-operation comparison with a reference model"),
+ "C06": ("exploration",
+  "VodPlayer actors walk vod and odvod manifests of every template that supports them over fixture and forged streams (irregular durations, non-zero first decode time, tracks shorter/longer than the timing reference): every enumerated number / timeline entry / SegmentList range must be served, one step past the end must be 404, the served fragments must form one gapless track starting at the file's first decode time and lasting the stored duration (oracle's own scan of the file), the declared duration must equal the timing reference to the millisecond and on-demand ranges must tile the stored file on box boundaries; live clients on the same stream, clock jumps and restarts are interleaved and must be irrelevant",
+  "vehicle property: sampled option space; the number of segments a $Number$ template enumerates is ceil(Period duration / @duration) as a client computes it",
+  TECH + "end-to-end walk oracle with independent file scan"),
+ "C13": ("exploration",
+  "fault-driven part: transfers of media segments and on-demand files are cut by net.truncate at byte k and resumed with bytes=k- at the same frozen clock, prefix + tail must equal a reference copy; generated part: Range strings around 0, len-1, len, len+1, suffix ranges, open ranges and a catalogue of malformed headers, each compared with the full body fetched at the same clock (206 slice + Content-Range, whole resource for over-long suffix, 416 with bytes */len, 400 or consistent service for non-RFC-7233 headers, never 5xx); other clients interleaved",
+  "claimed narrowly: only the truncated-transfer/resume part has simulation content; the header catalogue is plain seeded generation and is counted separately in the evidence (oracle_checks c13-ok / c13-not-single / c13-unsatisfiable vs c13-resume-after-truncate); initialization segments are outside the statement (they do not honour ranges)",
+  TECH + "paired ranged/unranged requests at one simulated instant"),
 }
 
 PENDING_REASON = "check not built yet in this session (planned, see DESIGN.md build order); not claimed until its simulation exists"
